@@ -61,6 +61,15 @@ type liveSwitchReader struct {
 	r         io.Reader
 	pr        *io.PipeReader
 	pipeCopyF func()
+	inHandler bool // the goroutine that reads is running a handler
+}
+
+// setInHandler records whether the goroutine that reads is running a handler,
+// in which case no Read is in progress.
+func (sr *liveSwitchReader) setInHandler(v bool) {
+	sr.Lock()
+	sr.inHandler = v
+	sr.Unlock()
 }
 
 func (sr *liveSwitchReader) Read(p []byte) (n int, err error) {
@@ -125,6 +134,17 @@ func (c *conn) closeNotify() <-chan struct{} {
 				}
 				pw.CloseWithError(err)
 				c.notifyClientGone()
+			}
+			if c.sr.inHandler {
+				// A handler is running, on the goroutine that reads: no Read
+				// is in progress and the copy routine can take over at once.
+				// It has to: a handler that waits for the channel it asked
+				// for would otherwise never be told that the peer is gone,
+				// since the next Read only happens after it has returned.
+				go c.sr.pipeCopyF()
+				c.sr.r = pr
+				c.sr.pr = nil
+				c.sr.pipeCopyF = nil
 			}
 			c.sr.Unlock()
 		}
@@ -235,7 +255,9 @@ func (c *conn) serve() {
 			break
 		}
 		// Handle messages in this goroutine.
+		c.sr.setInHandler(true)
 		serverHandler{c.server}.ServeDIAM(c.writer, m)
+		c.sr.setInHandler(false)
 	}
 }
 
